@@ -152,8 +152,9 @@ def share (s : St) (v : Nat) (b : Nat) : Option St :=
 
 /-- a new block with the given chars, `ref = 1`; release; `data = newData` -/
 def allocSet (s : St) (v : Nat) (bytes : List Byte) (len cap : Nat) : St :=
-  let s1 := release s v
-  setVar { s1 with heap := upd s1.heap s1.next (some ⟨bytes, len, cap, 1⟩), next := s1.next + 1 } v (.blk s1.next)
+  let s1 := setEmpty s v
+  { s1 with heap := upd s1.heap s1.next (some ⟨bytes, len, cap, 1⟩), next := s1.next + 1,
+            vars := upd s1.vars v (.blk s1.next) }
 
 /-- stores through `(char*)data->str` and `data->len = …`; only legal on an exclusively owned block -/
 def writeOwn (s : St) (v : Nat) (bytes : List Byte) (len : Nat) : Option St :=
@@ -214,7 +215,7 @@ def assign (s : St) (v w : Nat) : Option St := do
 
 /-- the chars `[from, to)` become unspecified (model convention for in-place growth) -/
 def poison (m : List Byte) (a b : Nat) : List Byte :=
-  if a < b then m.take a ++ fresh (b - a) ++ m.drop b else m
+  if a < b ∧ b ≤ m.length then m.take a ++ fresh (b - a) ++ m.drop b else m
 
 /-- `detach(usize copyLength, usize minCapacity)` -/
 def detach (s : St) (v : Nat) (copyLen minCap : Nat) : Option St := do
@@ -758,7 +759,14 @@ def printf (s : St) (v : Nat) (f : List Fmt) : Option (St × Nat) := do
 /-! ### observations -/
 
 /-- the abstract value of a slot: its `length()` chars -/
-def absVar (s : St) (v : Nat) : List Byte := (content s v).getD []
+def absVar (s : St) (v : Nat) : List Byte :=
+  match s.vars v with
+  | .empty => []
+  | .foreign r off len => (((s.regs r).map some).drop off).take len
+  | .blk b =>
+    match s.heap b with
+    | some blk => blk.bytes.take blk.len
+    | none => []
 
 /-- `data->str[data->len]` as stored (no view taken) -/
 def termByte (s : St) (v : Nat) : Option Byte := do
@@ -818,7 +826,9 @@ def step (s : St) (op : Op) : Option St :=
   let t := userVars s
   match op with
   | .ctorEmpty v => if validVar s v then some (ctorEmpty s v) else none
-  | .attach v r off len => if validVar s v then some (attach s v r off len) else none
+  | .attach v r off len =>
+    -- `str[len]` must be readable (contract of `attach`; a literal has its NUL there)
+    if validVar s v ∧ off + len < (s.regs r).length then some (attach s v r off len) else none
   | .ctorCopy v w => if validVar s v ∧ validVar s w ∧ v ≠ w then ctorCopy (setEmpty s v) v w else none
   | .ctorPtr v src => if validVar s v then ctorPtr (setEmpty s v) v (src.map some) else none
   | .ctorFill v n c => if validVar s v then ctorFill (setEmpty s v) v n c else none
